@@ -23,7 +23,9 @@ from .. import projects as P
 
 
 def c07_projects(quick: bool, rng: random.Random) -> List[Dict[str, Any]]:
-    ps = list(families.t3_reexport()) + [p for p in families.t5_duplicates() if "move" in p["meta"].get("shape", "")]
+    ps = list(families.t3_reexport()) + [p for p in families.t5_duplicates() if "move" in p["meta"].get("shape", "")] \
+        + list(families.t7_moved_class_with_moved_base()) + list(families.t8_prefix_roots()) \
+        + list(families.t9_reexport_while_origin_processing())
     if not quick:
         extra = [families.random_project(rng, rng.randint(3, 5)) for _ in range(300)]
         ps += [p for p in extra if P.expected_reexports(p)][:120]
@@ -44,6 +46,21 @@ def judge(ctx: Ctx, res: Dict[str, Any], oracle: Dict[str, Any]) -> List[str]:
         if e["site"]:
             by_site.setdefault(json.dumps(e["site"]), []).append(k)
     moved_sites = {json.dumps(x["site"]): x for x in exp}
+    # members (and nested members) of a moved object move with it: site -> expected new key
+    moved_keys: Dict[str, str] = {}
+
+    def add_members(origin: int, pc: int, newkey: str) -> None:
+        for name, mpc in P.members_of(proj, origin, pc):
+            moved_keys[json.dumps([origin, mpc])] = f"{newkey}.{name}"
+            if proj["mods"][origin - 1]["ops"][mpc - 1]["k"] == "class":
+                add_members(origin, mpc, f"{newkey}.{name}")
+    for x in exp:
+        moved_keys[json.dumps(x["site"])] = x["new"]
+        if x["kind"] == "class":
+            add_members(x["origin"], x["site"][1], x["new"])
+        elif x["kind"] == "module":
+            for name, mpc in x["members"]:
+                moved_keys[json.dumps([x["member_origin"], mpc])] = f"{x['new']}.{name}"
     for x in exp:
         keys = by_site.get(json.dumps(x["site"]), [])
         if keys != [x["new"]]:
@@ -52,7 +69,7 @@ def judge(ctx: Ctx, res: Dict[str, Any], oracle: Dict[str, Any]) -> List[str]:
             continue
         obj = system.allobjects[x["new"]]
         for name, pc in x["members"]:
-            mk = by_site.get(json.dumps([x["origin"], pc]), [])
+            mk = by_site.get(json.dumps([x.get("member_origin", x["origin"]), pc]), [])
             if mk != [f"{x['new']}.{name}"]:
                 failed.append("MembersFollow")
                 detail["MembersFollow"] = {"member": name, "keys": mk}
@@ -66,7 +83,7 @@ def judge(ctx: Ctx, res: Dict[str, Any], oracle: Dict[str, Any]) -> List[str]:
             if got is not obj:
                 failed.append("LookupByOldAndNewName")
                 detail["LookupByOldAndNewName"] = {"name": nm, "got": repr(got)}
-        expected_url = f"{x['new']}.html" if x["kind"] == "class" else f"{x['new'].rsplit('.', 1)[0]}.html#{x['new'].rsplit('.', 1)[1]}"
+        expected_url = f"{x['new']}.html" if x["kind"] in ("class", "module") else f"{x['new'].rsplit('.', 1)[0]}.html#{x['new'].rsplit('.', 1)[1]}"
         if obj.url != expected_url and not (len(system.root_names) == 1 and obj.url.startswith("index.html")):
             failed.append("PageFollows")
             detail["PageFollows"] = {"url": obj.url, "expected": expected_url}
@@ -90,9 +107,10 @@ def judge(ctx: Ctx, res: Dict[str, Any], oracle: Dict[str, Any]) -> List[str]:
                 continue
             e = dump[keys[0]]
             for i, bs in enumerate(info["bases"]):
-                if bs is not None and json.dumps(bs) in moved_sites:
+                if bs is not None and json.dumps(bs) in moved_keys:
                     got = e.get("base_sites", [None] * (i + 1))[i] if i < len(e.get("base_sites", [])) else None
-                    if got != bs:
+                    gotname = e["bases"][i] if i < len(e["bases"]) else None
+                    if got != bs or gotname != moved_keys[json.dumps(bs)]:
                         failed.append("ConsumersResolve")
                         detail["ConsumersResolve"] = {"class": keys[0], "rawbases": e.get("rawbases"), "expected_site": bs, "got": got}
         for nskey, ns in oracle["ns"].items():
